@@ -14,7 +14,7 @@ def slim_run(r, around=None):
     return d
 
 
-def run_conn(res, whiches, prop_filter=None, timeout=900, with_responder=False, with_streams=False):
+def run_conn(res, whiches, prop_filter=None, timeout=900, with_responder=False, with_streams=False, with_reverse=False):
     okb, blog, exe = vlib.build_harness()
     if not okb:
         res.failed_obligations.append(("harness does not build against /repo", blog))
@@ -33,12 +33,38 @@ def run_conn(res, whiches, prop_filter=None, timeout=900, with_responder=False, 
             res.violations.append({"what": r["oracle_fail"], "case": slim_run(r), "family": "conn/" + r["scenario"], "kind": "trace",
                                    "signature": "conn:%s:%s" % (r["scenario"], json.dumps(r["params"], sort_keys=True))})
     ws_runs = [r for r in runs if any(e['c'].startswith('ws-client') for e in r['events'])]   # HTTP scenarios have no connection LTS
-    bad, items = conncommon.validate(res, ws_runs, res.prop)
     diag_txt = {1: "event not enabled in the model", 2: "call outcomes differ from the model's", 3: "orphan-freedom fails in a visited state"}
+    def single_client(r):
+        return len({e["c"] for e in r["events"] if e["c"].startswith("ws-client#") and e["p"] == "loop.take"}) <= 1
+    bad, items = conncommon.validate(res, [r for r in ws_runs if single_client(r)], res.prop)
     for r, d, i, evs in bad:
         res.mismatches.append({"family": "conn/" + r["scenario"], "params": r["params"], "diag": diag_txt.get(d, d), "at_event": i,
                                "events_around": evs[max(0, i - 8):i + 3],
                                "note": "the recorded trace is not a behaviour of Conn.step (variant repaired_c)"})
+    if with_reverse:
+        # the server's wsConn is the requester of reverse calls: same LTS, roles swapped
+        rv = []
+        for r in ws_runs:
+            lb = conncommon.reverse_labels(r)
+            if lb:
+                r2 = dict(r)
+                r2["events"] = [e for e in r["events"] if not (e["c"] == "harness" and e["p"] == "call.return")]
+                rv.append((r, lb))
+        import re as _re
+        if rv:
+            items2 = [(r, conncommon.requester_events({**r, "events": [e for e in r["events"] if e["c"] != "harness"]}, conn=lb[0], client=lb[1])) for r, lb in rv]
+            src = conncommon.HEADER + "Definition cases : list tcase := [\n%s\n].\nDefinition D := Eval vm_compute in map tcase_diag cases.\nPrint D.\n" % ";\n".join(conncommon.tcase_term(e, []) for _, (e, o, t) in items2)
+            rc2, out2 = vlib.run_cases("cases_%s_rev" % res.prop, src)
+            m2 = _re.search(r"D\s*=\s*(.*?)\n\s*:\s", out2, flags=_re.S) if rc2 == 0 else None
+            pairs2 = _re.findall(r"\(\s*(\d+),\s*(\d+)\s*\)", m2.group(1)) if m2 else None
+            if pairs2 is None or len(pairs2) != len(items2):
+                res.mismatches.append({"family": "conn/reverse", "error": "reverse requester cases did not evaluate", "log": out2[-1200:]})
+            else:
+                for (d, i), (r, (evs, o, t)) in zip(pairs2, items2):
+                    if int(d) != 0:
+                        res.mismatches.append({"family": "conn/reverse", "params": r["params"], "diag": diag_txt.get(int(d), d), "at_event": int(i),
+                                               "events_around": evs[max(0, int(i) - 8):int(i) + 3], "note": "server-side requester trace of the reverse calls is not a behaviour of Conn.step"})
+                res.add_cov(reverse_requester_traces_validated=len(items2))
     if with_responder:
         rbad, ritems = conncommon.validate_responder(res, ws_runs, res.prop)
         rtxt = {1: "event not enabled in the responder model", 2: "the connection ended but the trace never reaches the all-cancelled state"}
